@@ -7,8 +7,9 @@ from . import common as C
 
 CONSTS = [("HEX", "0123456789abcdef"), ("HEXLOWER", "0123456789abcdef"), ("HEXUPPER", "0123456789ABCDEF")]
 # HEX / HEXUPPER: user variables and parameters that shadow a built-in constant are ordinary bindings
-VARNAMES = ["A", "B", "COLL", "E1", "D1", "U1", "HEX"]
-NAMES = ["A", "B", "COLL", "E1", "E2", "D1", "D2", "U1", "P1", "P2", "P3", "bt", "HEX", "HEXLOWER", "HEXUPPER"]
+# _P / [private]: private variables are exported like any other
+VARNAMES = ["A", "B", "COLL", "E1", "D1", "U1", "HEX", "_P"]
+NAMES = ["A", "B", "COLL", "E1", "E2", "D1", "D2", "U1", "P1", "P2", "P3", "bt", "HEX", "HEXLOWER", "HEXUPPER", "_P"]
 OUTS = {"[B-mod-root]": "btroot", "[B-mod-m]": "btm", "[B-mod-k]": "btk", "[B-def]": "defv", "[B-int]": "iv", "[B-shell]": "sv"}
 
 
@@ -24,7 +25,8 @@ def gen(rng):
         m = {"set_export": rng.random() < 0.35, "vars": [], "unexports": []}
         for n in VARNAMES:
             if rng.random() < 0.4:
-                m["vars"].append({"name": n, "value": ("root" if is_root else "mod") + n, "export": rng.random() < 0.5})
+                m["vars"].append({"name": n, "value": ("root" if is_root else "mod") + n, "export": rng.random() < 0.5,
+                                  "private": rng.random() < 0.25})
         return m
 
     cfg["root"] = module(True)
@@ -61,7 +63,7 @@ def module_text(cfg, m, is_root):
     for u in m["unexports"]:
         t += "unexport %s\n" % u
     for v in m["vars"]:
-        t += "%s%s := '%s'\n" % ("export " if v["export"] else "", v["name"], v["value"])
+        t += "%s%s%s := '%s'\n" % ("[private]\n" if v.get("private") else "", "export " if v["export"] else "", v["name"], v["value"])
     t += "bt := `%s`\n" % ("[B-mod-root]" if is_root else "[B-mod-m]")
     if is_root and cfg["in_module"]:
         t += "mod m\n"
@@ -144,7 +146,7 @@ def run_cfg(cfg):
         if cfg.get("k"):
             t = 'set shell := ["%s", "-c"]\n' % C.VSH + ("set export\n" if cfg["k"]["set_export"] else "")
             for v in cfg["k"]["vars"]:
-                t += "%s%s := '%s'\n" % ("export " if v["export"] else "", v["name"], v["value"])
+                t += "%s%s%s := '%s'\n" % ("[private]\n" if v.get("private") else "", "export " if v["export"] else "", v["name"], v["value"])
             t += "bt := `[B-mod-k]`\n\ns:\n  [T-k]\n"
             open(os.path.join(d, "k.just"), "w").write(t)
         open(os.path.join(d, ".env"), "w").write("".join("%s=%s\n" % kv for kv in cfg["dotenv_file"].items()))
@@ -242,7 +244,7 @@ def run(report):
     report.coverage.update({
         "evaluations": stats["sites_compared"],
         "distinct_nontrivial": len(distinct),
-        "rule": "random configurations: exported/plain assignments over colliding names in root and submodule, `set export`, unexport names, $/plain parameters shadowing variables, dotenv entries colliding with the environment; the child environment is dumped at 6 sites (module-level backtick, parameter-default backtick, recipe line or shebang script, interpolation backtick, shell(), --command); distinct = distinct (site, environment restricted to the candidate names)",
+        "rule": "random configurations: exported/plain assignments (some `[private]` or underscore-named, some named like a constant) over colliding names in root and submodule, `set export`, unexport names, $/plain parameters shadowing variables, dotenv entries colliding with the environment; the child environment is dumped at 6 sites (module-level backtick, parameter-default backtick, recipe line or shebang script, interpolation backtick, shell(), --command); distinct = distinct (site, environment restricted to the candidate names)",
         "samples": samples,
         "traces_validated_against_impl": stats["sites_compared"],
         "stats": stats,
